@@ -143,7 +143,7 @@ def intake(prop, src=None, extra_props=()):
 
 def rerun(ids):
     root = os.path.join(VERIF, 'seeded')
-    ids = ids or sorted(os.listdir(root))
+    ids = ids or sorted(x for x in os.listdir(root) if os.path.isdir(os.path.join(root, x)))
 
     def one(sid):
         meta = json.load(open(os.path.join(root, sid, 'meta.json')))
